@@ -1868,3 +1868,20 @@ Q(name="e2_endpoint_new_cid_no_overwrite", props=["C09"], func=r"endpoint\.rs:61
   functions=["Endpoint::new_cid (one iteration of its retry loop)"], pre=lambda c: "true", post=nc_post,
   bounds="one iteration of the generate-and-retry loop, every outcome of the generator and of the table look-up (hash map opaque): the CID routing table is modified only through a vacant entry obtained for the generated CID, or by an insert that replaced nothing - a colliding CID never re-points an existing route; the loop's other iterations start from the same (arbitrary) state",
   replay=("endpoint_new_cid_collision_native", lambda m: [dict(x=0)]))
+
+
+# ------------------------------------------------------------------ C08: a timer firing never re-enables idle-timer resets (one iteration of handle_timeout over every timer)
+def ht_post(c, p):
+    st = p.p.state
+    k = _conn(c, "permit_idle_reset")
+    v = st.store.get(k)
+    # only an authenticated packet from the peer (on_packet_authenticated) may set this flag; whatever a timer
+    # handler does, handle_timeout itself must not write `true` into it
+    return "false" if (v is not None and v.t == "true") else "true"
+
+
+Q(name="e2_handle_timeout_iteration", props=["C08"], func=r"connection/mod\.rs:245:1[^>]*>::handle_timeout$",
+  loop_is_stop=True, check_stop=True, allowed_panics=r".",
+  functions=["Connection::handle_timeout (one iteration of its loop over Timer::VALUES, every timer)"], pre=lambda c: "true", post=ht_post,
+  bounds="one iteration for an arbitrary timer (the timer value read from Timer::VALUES is unconstrained) from an arbitrary connection state: no arm of handle_timeout stores `true` into permit_idle_reset - a keep-alive or any other self-generated event must not let the connection restart its own idle timer; writes made inside the opaque handlers it calls are outside",
+  replay=("conn_keep_alive_idle_native", lambda m: [dict(x=0)]))
